@@ -192,3 +192,7 @@ func cmdVlqSweep(args []string) {
 	b, _ := json.Marshal(res)
 	os.WriteFile(*out, b, 0o644)
 }
+
+func init() {
+	register("vlq-sweep", cmdVlqSweep)
+}
